@@ -4,6 +4,7 @@ package main
 // history generator. Every choice comes from the run's PRNG.
 
 import (
+	"encoding/json"
 	"fmt"
 	"math/rand"
 	"sort"
@@ -54,13 +55,13 @@ func MakeActors() *Actors {
 		append(sdk.AccAddress{}, p3[:15]...),                       // p3 without its "stake" tail
 		p19,                                                        // 19-byte prefix of the signer provider q
 	}
-	a.Wallets = []sdk.AccAddress{addr20("wallet1"), addr20("wallet2")}
+	a.Wallets = []sdk.AccAddress{addr20("wallet1"), addr20("wallet2"), sdk.AccAddress(sha256Sum("wallet32")), sdk.AccAddress(sha256Sum("wallet7")[:7])}
 	a.All20 = append(a.All20, a.Owners...)
 	a.All20 = append(a.All20, a.Consumers...)
 	a.All20 = append(a.All20, a.Stranger, a.ModCons)
 	a.All20 = append(a.All20, a.SignProv[:4]...)
 	a.All20 = append(a.All20, a.SignProv[5:]...)
-	a.All20 = append(a.All20, a.Wallets...)
+	a.All20 = append(a.All20, a.Wallets[:2]...)
 	return a
 }
 
@@ -94,7 +95,7 @@ func (a *Actors) FundAll(r *Run, rich, mid, poor int64) {
 	}
 }
 
-var serviceNames = []string{"sv", "svc", "sv-c", "sv_c", "s" + strings.Repeat("v", 69)}
+var serviceNames = []string{"sv", "svc", "sv-c", "sv_c", "s" + strings.Repeat("v", 69), "Sv", "sV"}
 
 const goodSchemas = `{"input":{"type":"object"},"output":{"type":"object"}}`
 
@@ -112,7 +113,9 @@ const goodInput = `{"header":{},"body":{}}`
 const goodOutput = `{"header":{},"body":{}}`
 const goodResult = `{"code":200,"message":""}`
 
-var malformedOutputs = []string{`{"body":{}}`, `[]`, `"x"`, `{"header":1}`, `{"header":{},"body":3}`, `7`, `{"header":[]}`}
+var malformedOutputs = []string{`{"body":{}}`, `[]`, `"x"`, `{"header":1}`, `{"header":{},"body":3}`, `7`, `{"header":[]}`,
+	`{"header":{},"body":null}`, `{"Header":{}}`, `{"header":null}`, `{"HEADER":{},"Body":{}}`, `{"header":{},"body":[]}`, `{"header":"x"}`, `null`, `{}`,
+	`{"header":{},"body":"s"}`, `{"header":{},"body":1.5}`, `{"header":{},"body":false}`, `{"header":null,"body":{}}`}
 var goodOutputs = []string{goodOutput, `{"header":{}}`, `{"header":{"a":1},"body":{"b":[1,2]},"extra":true}`, `{"header":{},"body":{"x":"not-an-integer"}}`, `{"header":{},"body":{"x":1}}`, `{"header":{},"body":{"y":[]}}`}
 
 func pick(rng *rand.Rand, n int) int { return rng.Intn(n) }
@@ -163,12 +166,18 @@ func RandPricing(rng *rand.Rand, base string) string {
 		n := 1 + rng.Intn(3)
 		sb.WriteString(`,"promotions_by_volume":[`)
 		v := 1 + rng.Intn(2)
+		used := map[string]bool{}
 		for i := 0; i < n; i++ {
 			if i > 0 {
 				sb.WriteString(",")
 			}
-			fmt.Fprintf(&sb, `{"volume":%d,"discount":"%s"}`, v, discounts[pick(rng, len(discounts))])
-			v += 1 + rng.Intn(2)
+			d := discounts[pick(rng, len(discounts))]
+			for used[fmt.Sprint(v, d)] { // the schema wants the items pairwise different
+				v++
+			}
+			used[fmt.Sprint(v, d)] = true
+			fmt.Fprintf(&sb, `{"volume":%d,"discount":"%s"}`, v, d)
+			v += rng.Intn(3) // equal thresholds are allowed: the last listed tier reached wins
 		}
 		sb.WriteString("]")
 	}
@@ -338,6 +347,11 @@ func (g *Gen) opUpdateBinding() {
 	case 4:
 		// nothing but options
 	}
+	if g.rng.Intn(4) == 0 {
+		if tw := tweakPricing(g.rng, b.Pricing); tw != "" {
+			pricing, note = tw, strings.TrimSpace(note+" one-element-pricing-change")
+		}
+	}
 	g.r.Msg(types.NewMsgUpdateServiceBinding(b.ServiceName, b.Provider, dep, pricing, qos, "{}", owner), note)
 }
 
@@ -393,6 +407,10 @@ func (g *Gen) opSetWithdraw() {
 		wa = g.any20()
 	case 3:
 		wa = g.A.Wallets[0]
+	}
+	if cur, ok := g.r.pre.Withdraw[hexs(owner)]; ok && g.rng.Intn(3) == 0 {
+		_ = cur
+		wa = owner // back to the owner itself after another address was set
 	}
 	g.r.Msg(types.NewMsgSetWithdrawAddress(owner, wa), "")
 }
@@ -666,7 +684,7 @@ func (g *Gen) opModControl() {
 	s := g.r.pre
 	var ids []string
 	for _, id := range sortedKeys(s.Contexts) {
-		if s.Contexts[id].ModuleName != "" {
+		if s.Contexts[id].ModuleName == verifModule {
 			ids = append(ids, id)
 		}
 	}
@@ -700,6 +718,16 @@ func (g *Gen) opModControl() {
 
 func (g *Gen) opModSvcCall() {
 	if !g.r.w.hasModSvc {
+		// the name is reserved by the module although the host never installed its binding:
+		// users may define it, nobody may bind it - not even by naming the module's provider
+		if _, ok := g.r.pre.Defs[modSvcName]; !ok {
+			g.r.Msg(types.NewMsgDefineService(modSvcName, "squat", nil, g.any20(), "x", goodSchemas), "define the reserved name")
+		}
+		prov := g.r.w.a.modSvcProvider
+		if g.rng.Intn(2) == 0 {
+			prov = g.provider()
+		}
+		g.r.Msg(types.NewMsgBindService(modSvcName, prov, coins(100000), price("1"), 1, "{}", g.owner()), "bind the reserved service")
 		return
 	}
 	if g.rng.Intn(4) == 0 {
@@ -770,6 +798,10 @@ func RandomHistory(a *App, mon *Mon, seed int64, n int) *Run {
 	}
 	r.SetStateCbKill(r.rng.Intn(5) == 0)
 	r.SetViaApp(r.rng.Intn(2) == 0)
+	r.SetKillOthers(r.rng.Intn(6) == 0)
+	if r.rng.Intn(6) == 0 {
+		r.InstallGhost(act.Consumers[0], act.SignProv[0])
+	}
 	r.Begin()
 	g := NewGen(r, act)
 	g.Bootstrap()
@@ -791,4 +823,51 @@ func minI64(a, b int64) int64 {
 		return a
 	}
 	return b
+}
+
+// tweakPricing returns the pricing text with exactly one element changed (an end time, a
+// start time, one discount, one volume threshold or the base price), or "" if it cannot.
+func tweakPricing(rng *rand.Rand, text string) string {
+	var raw map[string]interface{}
+	dec := json.NewDecoder(strings.NewReader(text))
+	dec.UseNumber()
+	if dec.Decode(&raw) != nil {
+		return ""
+	}
+	bt, _ := raw["promotions_by_time"].([]interface{})
+	bv, _ := raw["promotions_by_volume"].([]interface{})
+	shift := func(v interface{}, d time.Duration) interface{} {
+		s, _ := v.(string)
+		t, err := time.Parse(time.RFC3339Nano, s)
+		if err != nil {
+			return v
+		}
+		return t.Add(d).Format(time.RFC3339Nano)
+	}
+	switch k := rng.Intn(5); {
+	case k == 0 && len(bt) > 0:
+		p := bt[len(bt)-1].(map[string]interface{})
+		p["end_time"] = shift(p["end_time"], 5*time.Second)
+	case k == 1 && len(bt) > 0:
+		p := bt[0].(map[string]interface{})
+		p["start_time"] = shift(p["start_time"], -5*time.Second)
+	case k == 2 && len(bt) > 0:
+		bt[rng.Intn(len(bt))].(map[string]interface{})["discount"] = discounts[pick(rng, len(discounts))]
+	case k == 3 && len(bv) > 0:
+		p := bv[len(bv)-1].(map[string]interface{})
+		if n, ok := p["volume"].(json.Number); ok {
+			if i, err := n.Int64(); err == nil {
+				p["volume"] = json.Number(fmt.Sprint(i + 1))
+			}
+		}
+	case k == 4 && len(bv) > 0:
+		bv[rng.Intn(len(bv))].(map[string]interface{})["discount"] = discounts[pick(rng, len(discounts))]
+	default:
+		raw["price"] = basePrices[pick(rng, len(basePrices))] + denom
+	}
+	out, err := json.Marshal(raw)
+	if err != nil {
+		return ""
+	}
+	return string(out)
 }
